@@ -34,6 +34,11 @@ theorem Closed.mono {K K' : P → Prop} (h : ∀ q, K q → K' q) : ∀ {l : Lis
   | [], _ => trivial
   | x :: rest, hc => ⟨h _ hc.1, Closed.mono (fun q hq => hq.elim (fun a => Or.inl (h q a)) Or.inr) hc.2⟩
 
+/-- the record kinds a populate burst produces -/
+def fillFlag : Flag → Bool
+  | .create | .open | .closeWrite | .modify | .attrib => true
+  | _ => false
+
 /-- what a record list says was created: (path, is a directory) of every CREATE -/
 def creates (levs : List LEv) : List (P × Bool) :=
   levs.filterMap (fun l => if l.flag = .create then some (l.src, l.isDir) else none)
@@ -446,7 +451,7 @@ theorem grow_step (ctx : GrowCtx fs0 F k lib0) (wfi : fsi.WF) (sub0 : ∀ e ∈ 
     (st : GrowSt fs0 F k fsi kX libX cr) :
     ∃ recs kY libY levs, kernelOp fsi k op = (fsAfter fsi op, k, recs) ∧ libBatch F kX libX recs = some (kY, libY, levs) ∧
       GrowSt fs0 F k (fsAfter fsi op) kY libY (cr ++ creates levs) ∧
-      (∀ l ∈ levs, l.flag = .create ∨ l.flag = .open ∨ l.flag = .closeWrite) := by
+      (∀ l ∈ levs, fillFlag l.flag = true) := by
   obtain ⟨p, b, hop, hp, hne, hpar, hfs⟩ := grow_op hvalid hkind
   rw [hfs] at subF hcl ⊢
   have hnn := ne_nil_of_two_le hp
@@ -611,8 +616,8 @@ theorem grow_step (ctx : GrowCtx fs0 F k lib0) (wfi : fsi.WF) (sub0 : ∀ e ∈ 
               exact hcr_p x hx (Or.inr (hyp ▸ (hdescF y hy).2))
       · intro l hl
         rcases List.mem_cons.mp hl with rfl | hl
-        · exact Or.inl rfl
-        · exact Or.inl (h6 l hl)
+        · rfl
+        · rw [h6 l hl]; rfl
     · -- a file: three records that leave the maps alone
       have hfile : ∀ e ∈ F.ents, isUnder p e.path = true → False := by
         intro e he hu
@@ -664,14 +669,190 @@ theorem grow_step (ctx : GrowCtx fs0 F k lib0) (wfi : fsi.WF) (sub0 : ∀ e ∈ 
           exact hcr_p x hx (Or.inl hc)
       · intro l hl
         simp only [List.mem_cons, List.not_mem_nil, or_false] at hl
-        rcases hl with rfl | rfl | rfl <;> simp
+        rcases hl with rfl | rfl | rfl <;> rfl
+
+/- ---------------- writes and attribute changes in the same burst ---------------- -/
+
+/-- every operation is a creation, a write or an attribute change, valid when it is issued -/
+def allFill (fs : FS) : List Op → Bool
+  | [] => true
+  | op :: rest => validOp fs op && fillKind op && allFill (fsAfter fs op) rest
+
+theorem allFill_of_allGrow : ∀ (ops : List Op) (fs : FS), allGrow fs ops = true → allFill fs ops = true := by
+  intro ops
+  induction ops with
+  | nil => intro _ _; rfl
+  | cons op rest ih =>
+    intro fs h
+    simp only [allGrow, Bool.and_eq_true] at h
+    simp [allFill, fillKind, h.1.1, h.1.2, ih _ h.2]
+
+theorem touch_fs {fs : FS} {op : Op} (hk : touchKind op = true) : fsAfter fs op = fs := by
+  cases op with
+  | write p => rfl
+  | chmod p => simp only [fsAfter, kernelOp]; cases fs.find? p <;> rfl
+  | _ => simp [touchKind] at hk
+
+theorem fill_cases {op : Op} (h : fillKind op = true) : growKind op = true ∨ touchKind op = true := by
+  simpa [fillKind] using h
+
+/-- a write or an attribute change: records that leave the maps alone (or none at all), no CREATE -/
+theorem touch_step (ctx : GrowCtx fs0 F k lib0) (wfi : fsi.WF) (subF : ∀ e ∈ fsi.ents, e ∈ F.ents)
+    {op : Op} (hvalid : validOp fsi op = true) (hkind : touchKind op = true) (st : GrowSt fs0 F k fsi kX libX cr) :
+    ∃ recs levs, kernelOp fsi k op = (fsi, k, recs) ∧ libBatch F kX libX recs = some (kX, libX, levs) ∧
+      creates levs = [] ∧ (∀ l ∈ levs, fillFlag l.flag = true) := by
+  -- a watch of the kernel (as it was when the burst began) on an entry that exists now is known to the library
+  have known : ∀ x ∈ fsi.ents, ∀ wd, k.wdOfIno x.ino = some wd → lookupW libX.pathForWd wd = some x.path := by
+    intro x hx wd hw
+    obtain ⟨e', he', hi, _, hl, _⟩ := st.inv.good _ (st.sub _ (wdOfIno_some hw))
+    have : e' = x := ctx.wfF.ino_inj he' (subF x hx) hi
+    subst this; exact hl
+  have parentOfEntry : ∀ x ∈ fsi.ents, 2 ≤ x.path.length → ∃ par ∈ fsi.ents, fsi.find? (parentOf x.path) = some par := by
+    intro x hx h2
+    rcases wfi.parent hx with h | h | h
+    · rw [h] at h2; simp at h2
+    · rw [h] at h2; simp at h2
+    · obtain ⟨par, hp, _⟩ := FS.isDir_iff.mp h.2
+      exact ⟨par, (FS.find?_some hp).1, hp⟩
+  cases op with
+  | write p =>
+    obtain ⟨f, hf, hfd⟩ := FS.isFile_iff.mp (by simpa [validOp] using hvalid)
+    obtain ⟨hfm, hfp⟩ := FS.find?_some hf
+    have h2 : 2 ≤ f.path.length := by
+      rcases wfi.parent hfm with h | h | h
+      · exfalso
+        obtain ⟨w, hw, hwd⟩ := FS.isDir_iff.mp wfi.rootW
+        have := wfi.path_inj hfm (FS.find?_some hw).1 (h.trans (FS.find?_some hw).2.symm)
+        rw [this, hwd] at hfd; cases hfd
+      · exfalso
+        obtain ⟨w, hw, hwd⟩ := FS.isDir_iff.mp wfi.rootO
+        have := wfi.path_inj hfm (FS.find?_some hw).1 (h.trans (FS.find?_some hw).2.symm)
+        rw [this, hwd] at hfd; cases hfd
+      · exact h.1
+    obtain ⟨par, hparm, hpar⟩ := parentOfEntry f hfm h2
+    rw [hfp] at hpar
+    have hparp : par.path = parentOf p := (FS.find?_some hpar).2
+    cases hw : k.wdOfIno par.ino with
+    | none =>
+      refine ⟨[], [], ?_, rfl, rfl, by simp⟩
+      simp [kernelOp, hpar, onEntry_none hw]
+    | some wd =>
+      have hl := known par hparm wd hw
+      rw [hparp] at hl
+      refine ⟨[⟨wd, .open, false, 0, some (baseName p)⟩, ⟨wd, .modify, false, 0, some (baseName p)⟩, ⟨wd, .closeWrite, false, 0, some (baseName p)⟩],
+        _, ?_, libBatch_simple F kX libX _ (fun _ => parentOf p) ?_, ?_, ?_⟩
+      · simp [kernelOp, hpar, onEntry_some hw]
+      · intro r hr
+        simp only [List.mem_cons, List.not_mem_nil, or_false] at hr
+        rcases hr with rfl | rfl | rfl <;> exact ⟨by simp [simpleFlag], hl⟩
+      · simp [creates, NRec.toLEv]
+      · intro l hl'
+        simp only [List.map_cons, List.map_nil, List.mem_cons, List.not_mem_nil, or_false] at hl'
+        rcases hl' with rfl | rfl | rfl <;> rfl
+  | chmod p =>
+    have hv := hvalid
+    simp only [validOp, Bool.and_eq_true, decide_eq_true_eq] at hv
+    obtain ⟨e, he⟩ := FS.exists_iff.mp hv.2
+    obtain ⟨hem, hep⟩ := FS.find?_some he
+    obtain ⟨par, hparm, hpar⟩ := parentOfEntry e hem (by rw [hep]; exact hv.1)
+    rw [hep] at hpar
+    have hparp : par.path = parentOf p := (FS.find?_some hpar).2
+    -- the record on the entry itself (a watched directory), the record on its parent
+    have hself : ∃ rs : List NRec, (if e.isDir then k.onSelf e.ino .attrib true else []) = rs ∧
+        ∀ r ∈ rs, r.flag = .attrib ∧ r.name = none ∧ lookupW libX.pathForWd r.wd = some p := by
+      cases hd : e.isDir with
+      | false => exact ⟨[], by simp, by simp⟩
+      | true =>
+        cases hw : k.wdOfIno e.ino with
+        | none => exact ⟨[], by simp [onSelf_none hw], by simp⟩
+        | some wd =>
+          refine ⟨[⟨wd, .attrib, true, 0, none⟩], by simp [onSelf_some hw], ?_⟩
+          intro r hr; simp only [List.mem_singleton] at hr; subst hr
+          exact ⟨rfl, rfl, by rw [← hep]; exact known e hem wd hw⟩
+    have hparr : ∃ rs : List NRec, k.onEntry (some par.ino) .attrib e.isDir 0 (baseName p) = rs ∧
+        ∀ r ∈ rs, r.flag = .attrib ∧ r.name = some (baseName p) ∧ lookupW libX.pathForWd r.wd = some (parentOf p) := by
+      cases hw : k.wdOfIno par.ino with
+      | none => exact ⟨[], by simp [onEntry_none hw], by simp⟩
+      | some wd =>
+        refine ⟨[⟨wd, .attrib, e.isDir, 0, some (baseName p)⟩], by simp [onEntry_some hw], ?_⟩
+        intro r hr; simp only [List.mem_singleton] at hr; subst hr
+        exact ⟨rfl, rfl, by rw [← hparp]; exact known par hparm wd hw⟩
+    obtain ⟨rs1, h1, g1⟩ := hself
+    obtain ⟨rs2, h2, g2⟩ := hparr
+    refine ⟨rs1 ++ rs2, _, ?_, libBatch_simple F kX libX _ (fun r => match r.name with | none => p | some _ => parentOf p) ?_, ?_, ?_⟩
+    · simp only [kernelOp, he, hpar, Option.map_some, h1, h2]
+    · intro r hr
+      rcases List.mem_append.mp hr with h | h
+      · obtain ⟨a1, a2, a3⟩ := g1 r h
+        exact ⟨by rw [a1]; simp [simpleFlag], by rw [a2]; exact a3⟩
+      · obtain ⟨a1, a2, a3⟩ := g2 r h
+        exact ⟨by rw [a1]; simp [simpleFlag], by rw [a2]; exact a3⟩
+    · simp only [creates, List.filterMap_eq_nil_iff, List.mem_map]
+      rintro l ⟨r, hr, rfl⟩
+      have : r.flag = .attrib := by
+        rcases List.mem_append.mp hr with h | h
+        · exact (g1 r h).1
+        · exact (g2 r h).1
+      simp [NRec.toLEv, this]
+    · intro l hl'
+      obtain ⟨r, hr, rfl⟩ := List.mem_map.mp hl'
+      have : r.flag = .attrib := by
+        rcases List.mem_append.mp hr with h | h
+        · exact (g1 r h).1
+        · exact (g2 r h).1
+      simp [NRec.toLEv, this, fillFlag]
+  | _ => simp [touchKind] at hkind
+
+/-- the file-system facts of `grow_facts` for populate bursts -/
+theorem fill_facts : ∀ (ops : List Op) (fs : FS), fs.WF → allFill fs ops = true →
+    (fsRun fs ops).WF ∧ (∀ e ∈ fs.ents, e ∈ (fsRun fs ops).ents) ∧
+    (∀ e ∈ (fsRun fs ops).ents, e ∉ fs.ents → fs.nextIno ≤ e.ino) ∧
+    ∃ news, (fsRun fs ops).ents = fs.ents ++ news ∧ Closed (fun q => fs.isDir q = true) news := by
+  intro ops
+  induction ops with
+  | nil => intro fs hwf _; exact ⟨hwf, fun _ h => h, fun e he hn => absurd he hn, [], by simp [fsRun], trivial⟩
+  | cons op rest ih =>
+    intro fs hwf hv
+    simp only [allFill, Bool.and_eq_true] at hv
+    obtain ⟨⟨hvalid, hkind⟩, hrest⟩ := hv
+    rcases fill_cases hkind with hg | ht
+    · obtain ⟨p, b, _, hp, hne, hpar, hfs⟩ := grow_op hvalid hg
+      have hwf1 := hwf.add hp hne hpar b
+      rw [hfs] at hrest
+      obtain ⟨i1, i2, i3, news, i4, i5⟩ := ih (fs.add p b) hwf1 hrest
+      simp only [fsRun, hfs]
+      refine ⟨i1, fun e he => i2 e (FS.mem_add.mpr (Or.inl he)), ?_, ⟨p, b, fs.nextIno⟩ :: news, ?_, ?_, ?_⟩
+      · intro e he hn
+        by_cases h1 : e ∈ (fs.add p b).ents
+        · rcases FS.mem_add.mp h1 with h | h
+          · exact absurd h hn
+          · subst h; exact Nat.le_refl _
+        · have := i3 e he h1; simp only [FS.add] at this; omega
+      · rw [i4]; simp [FS.add]
+      · exact hpar
+      · refine i5.mono ?_
+        intro q hq
+        obtain ⟨e, he, hd⟩ := FS.isDir_iff.mp hq
+        rw [FS.find?_add] at he
+        cases hf : fs.find? q with
+        | some e0 =>
+          rw [hf] at he; simp at he; subst he
+          exact Or.inl (FS.isDir_iff.mpr ⟨e0, hf, hd⟩)
+        | none =>
+          rw [hf] at he
+          by_cases hpq : p = q
+          · simp [hpq] at he; subst he; exact Or.inr ⟨hd, hpq.symm⟩
+          · simp [hpq] at he
+    · rw [touch_fs ht] at hrest
+      simp only [fsRun, touch_fs ht]
+      exact ih fs hwf hrest
 
 theorem grow_batch (ctx : GrowCtx fs0 F k lib0) : ∀ (ops : List Op) (fsi : FS) (kX : Kern) (libX : Lib) (cr : List (P × Bool)),
-    fsi.WF → (∀ e ∈ fs0.ents, e ∈ fsi.ents) → allGrow fsi ops = true → fsRun fsi ops = F →
+    fsi.WF → (∀ e ∈ fs0.ents, e ∈ fsi.ents) → allFill fsi ops = true → fsRun fsi ops = F →
     GrowSt fs0 F k fsi kX libX cr →
     ∃ recs kY libY levs, kernelOps fsi k ops = (F, k, recs) ∧ libBatch F kX libX recs = some (kY, libY, levs) ∧
       GrowSt fs0 F k F kY libY (cr ++ creates levs) ∧
-      (∀ l ∈ levs, l.flag = .create ∨ l.flag = .open ∨ l.flag = .closeWrite) := by
+      (∀ l ∈ levs, fillFlag l.flag = true) := by
   intro ops
   induction ops with
   | nil =>
@@ -680,39 +861,55 @@ theorem grow_batch (ctx : GrowCtx fs0 F k lib0) : ∀ (ops : List Op) (fsi : FS)
     exact ⟨[], kX, libX, [], rfl, rfl, by simpa [creates] using st, by simp⟩
   | cons op rest ih =>
     intro fsi kX libX cr wfi sub0 hv hF st
-    simp only [allGrow, Bool.and_eq_true] at hv
-    obtain ⟨⟨hvalid, hkind⟩, hrest⟩ := hv
+    simp only [allFill, Bool.and_eq_true] at hv
+    obtain ⟨⟨hvalid, hkind'⟩, hrest⟩ := hv
     simp only [fsRun] at hF
-    obtain ⟨p, b, _, hp, hne, hpar, hfs⟩ := grow_op hvalid hkind
-    have wf1 : (fsAfter fsi op).WF := by rw [hfs]; exact wfi.add hp hne hpar b
-    have sub1 : ∀ e ∈ fs0.ents, e ∈ (fsAfter fsi op).ents := by
-      intro e he; rw [hfs]; exact FS.mem_add.mpr (Or.inl (sub0 e he))
-    obtain ⟨_, g2, _, g4⟩ := grow_facts rest (fsAfter fsi op) wf1 hrest
-    rw [hF] at g2 g4
-    obtain ⟨r1, k1, l1, v1, hk1, hb1, st1, hf1⟩ := grow_step ctx wfi sub0 hvalid hkind g2 g4 st
-    obtain ⟨r2, k2, l2, v2, hk2, hb2, st2, hf2⟩ := ih (fsAfter fsi op) k1 l1 (cr ++ creates v1) wf1 sub1 hrest hF st1
-    refine ⟨r1 ++ r2, k2, l2, v1 ++ v2, ?_, ?_, ?_, ?_⟩
-    · simp only [kernelOps, hk1, hk2]
-    · rw [libBatch_append _ _ _ _ _ hb1, hb2]
-    · rw [creates_append, ← List.append_assoc]; exact st2
-    · intro l hl
-      rcases List.mem_append.mp hl with h | h
-      · exact hf1 l h
-      · exact hf2 l h
+    rcases fill_cases hkind' with hkind | htouch
+    · obtain ⟨p, b, _, hp, hne, hpar, hfs⟩ := grow_op hvalid hkind
+      have wf1 : (fsAfter fsi op).WF := by rw [hfs]; exact wfi.add hp hne hpar b
+      have sub1 : ∀ e ∈ fs0.ents, e ∈ (fsAfter fsi op).ents := by
+        intro e he; rw [hfs]; exact FS.mem_add.mpr (Or.inl (sub0 e he))
+      obtain ⟨_, g2, _, g4⟩ := fill_facts rest (fsAfter fsi op) wf1 hrest
+      rw [hF] at g2 g4
+      obtain ⟨r1, k1, l1, v1, hk1, hb1, st1, hf1⟩ := grow_step ctx wfi sub0 hvalid hkind g2 g4 st
+      obtain ⟨r2, k2, l2, v2, hk2, hb2, st2, hf2⟩ := ih (fsAfter fsi op) k1 l1 (cr ++ creates v1) wf1 sub1 hrest hF st1
+      refine ⟨r1 ++ r2, k2, l2, v1 ++ v2, ?_, ?_, ?_, ?_⟩
+      · simp only [kernelOps, hk1, hk2]
+      · rw [libBatch_append _ _ _ _ _ hb1, hb2]
+      · rw [creates_append, ← List.append_assoc]; exact st2
+      · intro l hl
+        rcases List.mem_append.mp hl with h | h
+        · exact hf1 l h
+        · exact hf2 l h
+    · -- a write / attribute change: the tree and the maps stay as they are
+      have hfs := touch_fs (fs := fsi) htouch
+      rw [hfs] at hrest hF
+      obtain ⟨_, g2, _, _⟩ := fill_facts rest fsi wfi hrest
+      rw [hF] at g2
+      obtain ⟨r1, v1, hk1, hb1, hc1, hf1⟩ := touch_step ctx wfi g2 hvalid htouch st
+      obtain ⟨r2, k2, l2, v2, hk2, hb2, st2, hf2⟩ := ih fsi kX libX cr wfi sub0 hrest hF st
+      refine ⟨r1 ++ r2, k2, l2, v1 ++ v2, ?_, ?_, ?_, ?_⟩
+      · simp only [kernelOps, hk1, hk2]
+      · rw [libBatch_append _ _ _ _ _ hb1, hb2]
+      · rw [creates_append, hc1, List.nil_append]; exact st2
+      · intro l hl
+        rcases List.mem_append.mp hl with h | h
+        · exact hf1 l h
+        · exact hf2 l h
 
 /- ---------------- what the emitter makes of it ---------------- -/
 
-theorem emit_grow (fsX : FS) (full : Bool) (l : LEv) (h : l.flag = .create ∨ l.flag = .open ∨ l.flag = .closeWrite) (t : Tree) :
+theorem emit_grow (fsX : FS) (full : Bool) (l : LEv) (h : fillFlag l.flag = true) (t : Tree) :
     (emit fsX true full (.one l)).2 = false ∧
     replay t (emit fsX true full (.one l)).1 = (if l.flag = .create then setEntry t l.src l.isDir else t) ∧
     createdOf (emit fsX true full (.one l)).1 = (if l.flag = .create then [(l.src, l.isDir)] else []) := by
   obtain ⟨wd, flag, isDir, cookie, name, src⟩ := l
   simp only at h ⊢
-  rcases h with rfl | rfl | rfl <;> cases isDir <;>
+  cases flag <;> simp [fillFlag] at h <;> cases isDir <;>
     simp [emit, replay, applyEv, mkEv, createdOf, EvClass.eventType, EvClass.isDirectory]
 
 theorem emit_grow_all (fsX : FS) (full : Bool) : ∀ (levs : List LEv) (t : Tree),
-    (∀ l ∈ levs, l.flag = .create ∨ l.flag = .open ∨ l.flag = .closeWrite) →
+    (∀ l ∈ levs, fillFlag l.flag = true) →
     ((creates levs).map (·.1)).Nodup → (∀ x ∈ creates levs, ∀ y ∈ t, y.1 ≠ x.1) →
     (∀ y, y ∈ replay t (levs.flatMap (fun l => (emit fsX true full (.one l)).1)) ↔ y ∈ t ∨ y ∈ creates levs) ∧
     createdOf (levs.flatMap (fun l => (emit fsX true full (.one l)).1)) = creates levs := by
@@ -722,7 +919,7 @@ theorem emit_grow_all (fsX : FS) (full : Bool) : ∀ (levs : List LEv) (t : Tree
   | cons l rest ih =>
     intro t hf hnd hdis
     obtain ⟨_, h2, h3⟩ := emit_grow fsX full l (hf l (List.mem_cons_self ..)) t
-    have hf' : ∀ x ∈ rest, x.flag = .create ∨ x.flag = .open ∨ x.flag = .closeWrite :=
+    have hf' : ∀ x ∈ rest, fillFlag x.flag = true :=
       fun x hx => hf x (List.mem_cons_of_mem _ hx)
     have hco : createdOf (List.flatMap (fun l => (emit fsX true full (.one l)).1) (l :: rest)) =
         createdOf (emit fsX true full (.one l)).1 ++ createdOf (rest.flatMap (fun l => (emit fsX true full (.one l)).1)) := by
@@ -762,20 +959,20 @@ theorem emit_grow_all (fsX : FS) (full : Bool) : ∀ (levs : List LEv) (t : Tree
       have := hco; simp only [List.flatMap_cons] at this
       rw [this, h3, i2]; simp [hc]
 
-/-- **back-to-back regime, growth**: a burst of `mkdir`s and file creations at any depth (directories created inside
-    directories the burst itself created, populated before the reader wakes up), read as ONE batch after its last
-    operation, under a recursive watch.  The reader does not crash, the emitter keeps running, every directory that
+/-- **back-to-back regime, growth**: a burst of `mkdir`s, file creations, writes and attribute changes at any depth
+    (directories created inside directories the burst itself created, populated before the reader wakes up), read as ONE
+    batch after its last operation, under a recursive watch.  The reader does not crash, the emitter keeps running, every directory that
     exists afterwards is watched under its name (the invariant holds again), the stream holds exactly one created event
     per new entry of the tree, with the right kind, and replaying it on the tree before the burst gives the tree after -/
 theorem burst_grow (s : Sys) (ops : List Op) (inv : InvRec s.fs s.k s.lib) (hs : s.stopped = false)
-    (hc : s.crashed = false) (hv : allGrow s.fs ops = true) :
+    (hc : s.crashed = false) (hv : allFill s.fs ops = true) :
     (s.burst ops).1.fs = fsRun s.fs ops ∧ (s.burst ops).1.stopped = false ∧ (s.burst ops).1.crashed = false ∧
     InvRec (s.burst ops).1.fs (s.burst ops).1.k (s.burst ops).1.lib ∧
     sameTree (replay (treeW s.fs) (s.burst ops).2) (treeW (fsRun s.fs ops)) ∧
     ((createdOf (s.burst ops).2).map (·.1)).Nodup ∧
     (∀ x, x ∈ createdOf (s.burst ops).2 ↔
       ∃ e ∈ (fsRun s.fs ops).ents, e ∉ s.fs.ents ∧ isUnder ["W"] e.path = true ∧ x = (e.path, e.isDir)) := by
-  obtain ⟨g1, g2, g3, _⟩ := grow_facts ops s.fs inv.wf hv
+  obtain ⟨g1, g2, g3, _⟩ := fill_facts ops s.fs inv.wf hv
   have ctx : GrowCtx s.fs (fsRun s.fs ops) s.k s.lib := ⟨inv, g1, g2, g3⟩
   have st0 : GrowSt s.fs (fsRun s.fs ops) s.k s.fs s.k s.lib [] := by
     refine ⟨(inv.fs_grow g1 g2).mono ?_, fun _ h => h, ?_, by simp, ?_, by simp⟩
@@ -790,11 +987,11 @@ theorem burst_grow (s : Sys) (ops : List Op) (inv : InvRec s.fs s.k s.lib) (hs :
   obtain ⟨recs, kY, libY, levs, hk, hb, st, hf⟩ := grow_batch ctx ops s.fs s.k s.lib [] inv.wf (fun _ h => h) hv rfl st0
   simp only [List.nil_append] at st
   have hflags : ∀ e ∈ levs, e.flag ≠ .movedTo ∧ e.flag ≠ .ignored := by
-    intro e he; rcases hf e he with h | h | h <;> simp [h]
+    intro e he; have := hf e he; cases hfl : e.flag <;> simp [fillFlag, hfl] at this ⊢
   have hgs := gsOf_simple _ hflags
   have hmo : movedOut (gsOf levs) = [] := by
     rw [hgs]; apply movedOut_ones_nil
-    intro l hl; rcases hf l hl with h | h | h <;> simp [h]
+    intro l hl; have := hf l hl; cases hfl : l.flag <;> simp [fillFlag, hfl] at this ⊢
   have hrecY : libY.recursive = true := st.inv.isRec
   have hem : emitAll (fsRun s.fs ops) libY.recursive s.full (gsOf levs) =
       (levs.flatMap (fun l => (emit (fsRun s.fs ops) true s.full (.one l)).1), false) := by
@@ -857,10 +1054,10 @@ theorem after_history (fs0 : FS) (hwf : fs0.WF) (full : Bool) (pre : List Op)
   exact ⟨hr.2.2 hst, hst, hr.2.1⟩
 
 /-- the executable twin decides the hypothesis -/
-theorem allGrow_of_check (s : Sys) (ops : List Op) (h : allGrowB s ops = true) : allGrow s.fs ops = true := by
+theorem allFill_of_check (s : Sys) (ops : List Op) (h : allFillB s ops = true) : allFill s.fs ops = true := by
   have gen : ∀ (ops : List Op) (fs : FS) (b : Bool),
-      (ops.foldl (fun (acc : FS × Bool) op => ((kernelOp acc.1 s.k op).1, acc.2 && validOp acc.1 op && growKind op)) (fs, b)).2 = true →
-      b = true ∧ allGrow fs ops = true := by
+      (ops.foldl (fun (acc : FS × Bool) op => ((kernelOp acc.1 s.k op).1, acc.2 && validOp acc.1 op && fillKind op)) (fs, b)).2 = true →
+      b = true ∧ allFill fs ops = true := by
     intro ops
     induction ops with
     | nil => intro fs b h; exact ⟨h, rfl⟩
@@ -870,7 +1067,7 @@ theorem allGrow_of_check (s : Sys) (ops : List Op) (h : allGrowB s ops = true) :
       obtain ⟨h1, h2⟩ := ih _ _ h
       simp only [Bool.and_eq_true] at h1
       refine ⟨h1.1.1, ?_⟩
-      simp only [allGrow, h1.1.2, h1.2, Bool.true_and]
+      simp only [allFill, h1.1.2, h1.2, Bool.true_and]
       rw [fsAfter, kernelOp_fs fs ⟨[], 1, 1⟩ s.k]; exact h2
   exact (gen ops s.fs true h).2
 
